@@ -156,8 +156,16 @@ func (p *Parser) ParseConditionalExpression() *ConditionalExpression {
 		return stmt
 	}
 
-	for p.curToken.Type != EOF {
+	for parsed := 0; p.curToken.Type != EOF; parsed++ {
+		start := p.curToken
+
 		stmt.Expression = p.parseExpression(precedenceValueLowset)
+
+		if parsed > 0 {
+			// a condition is a single expression: anything after it is a syntax error
+			msg := fmt.Sprintf("Syntax error; token: %q, near: %q", start.Literal, p.curToken.Literal)
+			p.errors = append(p.errors, msg)
+		}
 
 		p.nextToken()
 	}
